@@ -64,7 +64,8 @@ def gen_bool_expr(rng, in_loops):
         return rng.choice(['true', 'True', 'TRUE', 'false', '1', '0', '1.0', '1.00', 'yes', '', ' 1', 'tRuE', 'None',
                            'true\n', '1\n', '1.0\n', 'TRUE\n', 'true\n\n', 'true ', '\ttrue', 'true\r\n', '{nl}', '{nl}'])
     if r < 0.52:
-        return rng.choice(['{flag}', '{nflag}', '{sflag}', '{n}', '{empty}', 'x{flag}', '{word}'])
+        return rng.choice(['{flag}', '{nflag}', '{sflag}', '{n}', '{empty}', 'x{flag}', '{word}', '{flag}', '{nflag}',
+                           '{missing_key}'])
     if r < 0.58:
         return rng.choice([0, 1, 2, None, HALF, {'l': []}, {'l': [0]}, {'d': []}])
     # !py expressions
